@@ -29,6 +29,7 @@ MCScnSchema(i)       == Scn[i].sid
 MCScnMain(i)         == Scn[i].main
 MCScnOpts(i)         == Scn[i].opts
 MCScnTwin(i)         == Scn[i].twin
+MCScnCulprit(i)      == Scn[i].culprit
 
 Spec == SInit2 /\ [][SNext2]_svars2
 
